@@ -279,7 +279,7 @@ static ssize_t sim_write(int fd, const void* buf, size_t n) {
     size_t len = n;
     if (Fault* ft = find_fault(Fault::WRITE_ERR_AT, f.path)) {
         const uint64_t end = of->pos + n;
-        if (end > ft->n || (ft->sticky && ft->fired > 0)) {
+        if ((ft->fired == 0 && end > ft->n) || (ft->sticky && ft->fired > 0)) {
             if (ft->partial && ft->fired == 0 && ft->n > of->pos) {
                 len = static_cast<size_t>(ft->n - of->pos); // short write up to the limit, the next call fails
                 sim::fault_fired("short write (up to fault offset)");
